@@ -13,5 +13,7 @@ InsideFindsItsTile == R.kind = "inside" => R.from = R.tile
 OutsideFindsNoTile == R.kind = "outside" => R.from = <<>>
 CornerWhereDocumentSays == R.corner_ok
 BBoxSpansCorners == R.bbox_ok
+(* a tile's Z names a tile matrix by its id: the matrix used for Z = z is the one the document calls z (UTM31WGS84Quad starts at id 1) *)
+MatrixIsTheOneNamed == R.docid = R.z
 TileInMatrix == R.kind = "inside" => (R.tile[1] \in 0..(R.w - 1) /\ R.tile[2] \in 0..(R.h - 1))
 =============================================================================
